@@ -360,3 +360,79 @@ fn c15_propset_write() {
     kani::cover!(!ok);
     std::mem::forget(ps);
 }
+
+
+/// C09/C02: `PropertyValue::read` (through the msi_verif hook): never panics;
+/// integer-typed values decode per the format description.  The type tag is
+/// concrete per call (a symbolic tag makes CBMC explore the string arm with a
+/// symbolic-length String: 24 GB, measured); for strings the length field is
+/// concrete per call and covers the length arithmetic (0, 1, 2) and premature
+/// end of stream; payload bytes and the available stream length are symbolic.
+fn propvalue_read(ty: u32, lpstr_len: u32) {
+    let mut b: [u8; 12] = kani::any();
+    b[0] = (ty & 0xff) as u8;
+    b[1] = ((ty >> 8) & 0xff) as u8;
+    b[2] = ((ty >> 16) & 0xff) as u8;
+    b[3] = (ty >> 24) as u8;
+    if ty == 30 {
+        b[4] = (lpstr_len & 0xff) as u8;
+        b[5] = ((lpstr_len >> 8) & 0xff) as u8;
+        b[6] = ((lpstr_len >> 16) & 0xff) as u8;
+        b[7] = (lpstr_len >> 24) as u8;
+        // text bytes concrete ASCII (their content is not the subject), terminator symbolic
+        b[8] = b'x';
+    }
+    let len: usize = kani::any();
+    kani::assume(len <= 12);
+    let r = is_ok_forget(PropertyValue::verif_read(ArrReader::new(b, len), CodePage::UsAscii));
+    match r {
+        Some(PropertyValue::I4(v)) => assert!(ty == 3 && v as u32 == u32_at(&b, 4), "C02: I4 value decoded differently from the format description"),
+        Some(PropertyValue::I2(v)) => assert!(ty == 2 && v as u16 == (u32_at(&b, 4) & 0xffff) as u16, "C02: I2 value decoded differently"),
+        Some(PropertyValue::I1(v)) => assert!(ty == 16 && v as u8 == b[4], "C02: I1 value decoded differently"),
+        Some(PropertyValue::Empty) => assert!(ty == 0, "C02: EMPTY decoded from another type tag"),
+        Some(PropertyValue::Null) => assert!(ty == 1, "C02: NULL decoded from another type tag"),
+        Some(PropertyValue::FileTime(_)) => assert!(ty == 64 && len >= 12, "C02: FILETIME decoded from a short stream"),
+        Some(PropertyValue::LpStr(ref t)) => {
+            assert!(ty == 30, "C02: LPSTR decoded from another type tag");
+            let n = if lpstr_len == 0 { 0 } else { lpstr_len - 1 };
+            assert!(t.len() as u32 == n, "C02: LPSTR text length differs from the length field - 1");
+        }
+        None => {
+            let known = ty == 0 || ty == 1 || ty == 2 || ty == 3 || ty == 16 || ty == 30 || ty == 64;
+            if known && ty != 30 {
+                let need = match ty {
+                    0 | 1 => 4,
+                    2 => 6,
+                    3 => 8,
+                    16 => 5,
+                    _ => 12,
+                };
+                assert!(len < need, "C02: a well-formed integer property value is refused");
+            }
+        }
+    }
+    std::mem::forget(r);
+}
+
+macro_rules! propvalue_harness {
+    ($name:ident, $ty:expr, $len:expr) => {
+        #[kani::proof]
+        #[kani::unwind(8)]
+        #[kani::stub(std::fmt::format, crate::util::stub_format)]
+        fn $name() {
+            propvalue_read($ty, $len);
+            kani::cover!(true);
+        }
+    };
+}
+
+propvalue_harness!(c09_propvalue_read_i4, 3, 0);
+propvalue_harness!(c09_propvalue_read_i2, 2, 0);
+propvalue_harness!(c09_propvalue_read_i1, 16, 0);
+propvalue_harness!(c09_propvalue_read_filetime, 64, 0);
+propvalue_harness!(c09_propvalue_read_empty, 0, 0);
+propvalue_harness!(c09_propvalue_read_unknown, 5, 0);
+propvalue_harness!(c09_propvalue_read_lpstr_len0, 30, 0);
+propvalue_harness!(c09_propvalue_read_lpstr_len1, 30, 1);
+propvalue_harness!(c09_propvalue_read_lpstr_len2, 30, 2);
+propvalue_harness!(c09_propvalue_read_lpstr_huge, 30, 0xffff_ffff);
